@@ -223,8 +223,26 @@ func (vf *VFlow) targets(c ssa.CallInstruction) []*ssa.Function {
 	return out
 }
 
+// allocLabel: "alloc:{<allocated type>}<function>/<site>"; rules match on the type part, so moving an
+// allocation to another function or renaming the variable does not change a verdict.
 func (vf *VFlow) allocLabel(a *ssa.Alloc) string {
-	return "alloc:" + vf.cx.W.FuncKey(a.Parent()) + "/" + vf.cx.Fx.cellName(a)
+	et := a.Type().Underlying().(*types.Pointer).Elem()
+	t := shortType(et)
+	if namedOf(et) != nil {
+		t = typeKey(et)
+	}
+	return "alloc:{" + t + "}" + vf.cx.W.FuncKey(a.Parent()) + "/" + vf.cx.Fx.cellName(a)
+}
+
+// paramLabel: "param:<function>/#<index>": parameter names are not part of a label.
+func (vf *VFlow) paramLabel(p *ssa.Parameter) string {
+	idx := 0
+	for i, q := range p.Parent().Params {
+		if q == p {
+			idx = i
+		}
+	}
+	return fmt.Sprintf("param:%s/#%d", vf.cx.W.FuncKey(p.Parent()), idx)
 }
 
 // Labels computes the provenance of v.
@@ -275,7 +293,7 @@ func (vf *VFlow) walk(v ssa.Value, fl uint8, out LabelSet, seen map[string]bool,
 		}
 		cs := vf.callers[fn]
 		if len(cs) == 0 || idx < 0 {
-			out.add("param:"+w.FuncKey(fn)+"/"+x.Name(), fl)
+			out.add(vf.paramLabel(x), fl)
 			return
 		}
 		// call-site sensitivity: inside the evaluation of a call's result, the callee's parameters are
@@ -383,7 +401,7 @@ func (vf *VFlow) walk(v ssa.Value, fl uint8, out LabelSet, seen map[string]bool,
 		}
 		out.add("opaque:next", fl)
 	case *ssa.MakeSlice, *ssa.MakeMap:
-		out.add("alloc:"+w.FuncKey(v.Parent())+"/"+v.Name()+"@make", fl)
+		out.add("alloc:{"+shortType(v.Type())+"}"+w.FuncKey(v.Parent())+"/"+v.Name()+"@make", fl)
 	default:
 		out.add(fmt.Sprintf("opaque:%T", v), fl)
 	}
@@ -508,6 +526,25 @@ func (vf *VFlow) callResult(t ssa.Value, idx int, fl uint8, out LabelSet, seen m
 			vf.walk(com.Value, fl|flTransformed, out, seen, depth+1)
 		}
 		for _, a := range com.Args {
+			// variadic arguments: the elements, evaluated in the current call-site context
+			if sl, ok := a.(*ssa.Slice); ok {
+				if arr, ok := sl.X.(*ssa.Alloc); ok {
+					n := 0
+					for _, ref := range *arr.Referrers() {
+						if ia, ok := ref.(*ssa.IndexAddr); ok {
+							for _, r2 := range *ia.Referrers() {
+								if st, ok := r2.(*ssa.Store); ok && st.Addr == ssa.Value(ia) {
+									n++
+									vf.walk(st.Val, fl|flTransformed, out, seen, depth+1)
+								}
+							}
+						}
+					}
+					if n > 0 {
+						continue
+					}
+				}
+			}
 			vf.walk(a, fl|flTransformed, out, seen, depth+1)
 		}
 		return
@@ -718,7 +755,23 @@ func (vf *VFlow) loadAllocField(l string, fv *types.Var, fl uint8, out LabelSet,
 				n++
 				out.add("decoded:"+typeKey(cell.Type().Underlying().(*types.Pointer).Elem())+"."+fv.Name(), fl)
 			}
-		} else {
+		} else if sub == "[]" {
+			// an element of a local array / slice literal: whole-struct stores into its slots
+			for _, ref := range *cell.Referrers() {
+				ia, ok := ref.(*ssa.IndexAddr)
+				if !ok {
+					continue
+				}
+				for _, r2 := range *ia.Referrers() {
+					if st, ok := r2.(*ssa.Store); ok && st.Addr == ssa.Value(ia) {
+						if _, isStruct := st.Val.Type().Underlying().(*types.Struct); isStruct {
+							n++
+							vf.loadField(vf.objLabels(st.Val, depth+1), fv, fl, out, seen, depth+1)
+						}
+					}
+				}
+			}
+		} else if strings.Contains(sub, ".") {
 			// sub-object path: stores of whole structs into the enclosing field
 			parentL, last := l[:strings.LastIndex(l, ".")], l[strings.LastIndex(l, ".")+1:]
 			for pfv, sts := range vf.fstores {
@@ -748,8 +801,14 @@ func (vf *VFlow) loadAllocField(l string, fv *types.Var, fl uint8, out LabelSet,
 }
 
 func splitAllocLabel(l string) (base, sub string) {
-	// alloc:<fnKey>/<site>[.f.g] ; fnKey may contain dots, the site name does not
+	// alloc:{<type>}<fnKey>/<site>[.f.g] ; type and fnKey may contain dots, the site name does not
 	i := strings.LastIndex(l, "/")
+	if j := strings.Index(l, "}"); j > i {
+		// a '/' inside the type part only (no site separator found after it): look after the brace
+		if k := strings.Index(l[j:], "/"); k >= 0 {
+			i = j + k
+		}
+	}
 	if i < 0 {
 		return l, ""
 	}
@@ -806,8 +865,10 @@ func (vf *VFlow) allocElems(l string, fl uint8, out LabelSet, seen map[string]bo
 	for _, ref := range *cell.Referrers() {
 		switch r := ref.(type) {
 		case *ssa.IndexAddr:
+			stored := false
 			for _, rr := range *r.Referrers() {
 				if st, ok := rr.(*ssa.Store); ok && st.Addr == r {
+					stored = true
 					if _, isStruct := st.Val.Type().Underlying().(*types.Struct); isStruct {
 						for ol := range vf.objLabels(st.Val, depth+1) {
 							out.add(ol, fl)
@@ -816,9 +877,11 @@ func (vf *VFlow) allocElems(l string, fl uint8, out LabelSet, seen map[string]bo
 						vf.walk(st.Val, fl, out, seen, depth+1)
 					}
 				}
-				// element filled field-wise: the element object is l[]
 			}
-			out.add(l+"[]", fl)
+			if !stored {
+				// element filled field-wise (or only read): the element object is l[]
+				out.add(l+"[]", fl)
+			}
 		case *ssa.MapUpdate:
 			vf.walk(r.Value, fl, out, seen, depth+1)
 		}
@@ -931,6 +994,41 @@ func (vf *VFlow) StoreSourcesIn(fnKey, owner, name string) (LabelSet, []*ssa.Sto
 		}
 	}
 	return out, sel
+}
+
+// NestedFieldSources: provenance of field innerOwner.innerField of the objects stored (in scope) into field
+// owner.field - e.g. the Text of whatever NameIDType object becomes the Issuer of a ResponseType - wherever
+// that object is built. n = number of store sites of owner.field.
+func (vf *VFlow) NestedFieldSources(owner, field, innerOwner, innerField string) (LabelSet, int) {
+	out := LabelSet{}
+	_, sites := vf.FieldStoreSources(owner, field)
+	objs := LabelSet{}
+	for _, st := range sites {
+		for l := range vf.objLabels(st.Val, 0) {
+			objs.add(l, 0)
+		}
+	}
+	for fv, sts := range vf.fstores {
+		if fv.Name() != innerField {
+			continue
+		}
+		for _, st := range sts {
+			fa := st.Addr.(*ssa.FieldAddr)
+			if fieldOwner(fa.X.Type()) != innerOwner {
+				continue
+			}
+			hit := false
+			for l := range vf.objLabels(fa.X, 0) {
+				if _, ok := objs[l]; ok {
+					hit = true
+				}
+			}
+			if hit {
+				out.addAll(vf.Labels(st.Val), 0)
+			}
+		}
+	}
+	return vf.Deep(out), len(sites)
 }
 
 // CallArgSources: provenance of argument idx at every in-scope call whose callee
